@@ -350,11 +350,11 @@ HubCopy ==
           /\ rem' = Append(rem, hub[1].rem)
           /\ ret' = RNew(NH + 1) /\ dret' = RNew(NH + 1)
 
-\* hub.take(...) is refused
+\* hub.take(...) is refused (the code raises AttributeError; C03 does not name the class, so any exception counts)
 HubTake ==
   /\ Can("htake") /\ hub # <<>>
   /\ hist' = Append(hist, [op |-> "htake"])
-  /\ ret' = RExc("AttributeError") /\ dret' = RExc("AttributeError")
+  /\ ret' = RExc("Refused") /\ dret' = RExc("Refused")
   /\ UNCHANGED <<M, hd, rem, hub>>
 
 Next ==
